@@ -358,6 +358,53 @@ def run_double_preemption(i, j, width=40, pair=0):
     return results, ref
 
 
+CFG_VALUE = {'b': 1, 'a': [[0, 1, 2, 3, 4, 5, 6, 7]], 'c': ('x' * 10, 'y' * 10, 'z' * 10)}
+CFG_A = dict(width=30, sort_dict_keys=True, indent=2, max_seq_len=5, depth=3)
+
+
+def config_points():
+    """first executions of each package line in a solo print under CFG_A"""
+    seen, firsts, n = set(), [], [0]
+    import os as _os
+    L = sys.modules.get('prettyprinter.layout') or __import__('prettyprinter.layout', fromlist=['x'])
+    pkg_dir = _os.path.dirname(L.__file__) + _os.sep
+    from prettyprinter import pformat
+
+    def local(frame, event, arg):
+        if event == 'line':
+            key = (frame.f_code.co_filename, frame.f_lineno)
+            if key not in seen:
+                seen.add(key)
+                firsts.append(n[0])
+            n[0] += 1
+        return local
+
+    def glob(frame, event, arg):
+        return local if event == 'call' and frame.f_code.co_filename.startswith(pkg_dir) else None
+    sys.settrace(glob)
+    try:
+        pformat(CFG_VALUE, **CFG_A)
+    finally:
+        sys.settrace(None)
+    return firsts, n[0]
+
+
+def run_config_preemption(k, j=None):
+    """thread 0 prints with explicit settings and is preempted after k package lines; thread 1 prints the same
+    value WITHOUT settings - to its end (j None), or for j lines, after which thread 0 ends first; afterwards a
+    third, sequential call without settings -> (results of the two threads, the later text, expected texts)"""
+    from prettyprinter import pformat
+    ref = [pformat(CFG_VALUE, **CFG_A), pformat(CFG_VALUE)]
+    ctl = Controller(2, region='all')
+    fns = [(lambda: pformat(CFG_VALUE, **CFG_A)), (lambda: pformat(CFG_VALUE))]
+    if j is None:
+        results, used = ctl.run(fns, [0] * k, drain_order=[1, 0])
+    else:
+        results, used = ctl.run(fns, [0] * k + [1] * j, drain_order=[0, 1])
+    later = pformat(CFG_VALUE)
+    return results, later, ref
+
+
 def bounded_schedules(nthreads, max_run, switches):
     """all schedules made of at most [switches]+1 runs (a thread executing 0..max_run traced lines
     before being preempted by another thread); the remainder is drained sequentially"""
